@@ -435,6 +435,11 @@ def run(ctx):
         caller_keeps_order(ctx, "R03.3")
     except Skip:
         pass
+    try:
+        from . import c14 as _c14a
+        _c14a.origin_args(ctx, "R03.3")      # explicit ignore files keep their listed order through the discovery arguments as well
+    except Skip:
+        pass
 
     # ---- R03.9 matcher selection
     try:
